@@ -127,7 +127,7 @@ def dumpDefault (S : Schema) (f : FieldD) (sel : Bool) : R Bytes :=
       | .list => if isPacked f.ty then frame f.num .bytes [] false false else .ok []
       | .dict => .ok []
       | .msg _ => if f.ty == .message then frame f.num f.ty [] selG f.wraps.isSome else .error .type
-      | k => serializeScalar S f.num f.ty (defaultOfKind S k) ((k == .str && sel) || selG) f.wraps
+      | k => serializeScalar S f.num f.ty (defaultOfKind S k) ((match k with | .str => sel | _ => false) || selG) f.wraps
 
 mutual
 /-- `bytes(value)` of a message instance -/
